@@ -359,8 +359,8 @@ Definition scalar_kind (k : ident) : pkind :=
 (* the fixed reference targets of a generated compile unit (package foo.v1) and the well-known types *)
 Definition ref_kind (pkg path : qname) : pkind :=
   let is p q := qname_eqb pkg (map bs p) && qname_eqb path (map bs q) in
-  if is ["foo"; "v1"]%string ["Bar"]%string then KdMsgObject
-  else if is ["foo"; "v1"]%string ["Choice"]%string then KdMsgOneof
+  if is ["foo"; "v1"]%string ["Bar"]%string || is ["foo"; "v1"]%string ["Baz"]%string then KdMsgObject
+  else if is ["foo"; "v1"]%string ["Choice"]%string || is ["foo"; "v1"]%string ["Pick"]%string then KdMsgOneof
   else if is ["foo"; "v1"]%string ["Color"]%string then KdEnum
   else if is ["google"; "protobuf"]%string ["Timestamp"]%string then KdTimestamp
   else if is ["j5"; "types"; "date"; "v1"]%string ["Date"]%string then KdDate
